@@ -635,7 +635,7 @@ def reorder_pairs(stderr):
     return out
 
 
-def run_sources(src, env_extra=None, timeout=600, main='driver.cc', extra_flags=(), sanitize=True,
+def run_sources(src, env_extra=None, timeout=3600, main='driver.cc', extra_flags=(), sanitize=True,
                 syntax_only=False, compiler=None):
     """Compile (+ link + run) one case; cached on the hash of everything that determines the result.
     `main` may be a list of translation units that are compiled separately and linked.
@@ -673,7 +673,16 @@ def run_sources(src, env_extra=None, timeout=600, main='driver.cc', extra_flags=
             env = dict(os.environ)
             env.update(RUN_ENV)
             env.update(env_extra or {})
-            run = subprocess.run([exe], capture_output=True, text=True, timeout=timeout, check=False, env=env)
+            from .core import run_watched  # pylint: disable=import-outside-toplevel
+
+            class _Run:  # pylint: disable=too-few-public-methods
+                pass
+            run = _Run()
+            # no wall-clock verdict: the single-threaded driver is limited in CPU time (a driver that loops forever is
+            # killed by SIGXCPU and reported as aborted); a stalled one (no CPU at all) likewise
+            code, run.stdout, run.stderr = run_watched(['/bin/sh', '-c', 'ulimit -t 900; exec "$0"', exe], env=env,
+                                                       stall_seconds=180)
+            run.returncode = -99 if code == 'stalled' else code
             result['exit'] = run.returncode
             err = run.stderr.replace(tmp + '/', '')
             result['stderr'] = err if len(err) < 3000 else err[:1500] + '\n...\n' + err[-1200:]
@@ -686,8 +695,9 @@ def run_sources(src, env_extra=None, timeout=600, main='driver.cc', extra_flags=
                                                 'ok': False, 'detail': ''})
         _store(cpath, result)
         return result
-    except subprocess.TimeoutExpired:
-        return {'compiled': False, 'compile_error': 'lab timeout', 'exit': None, 'lines': [], 'stderr': 'timeout'}
+    except subprocess.TimeoutExpired as exc:
+        from .core import HarnessError  # pylint: disable=import-outside-toplevel
+        raise HarnessError(f'the compiler did not finish within {timeout}s (loaded machine?) - no verdict') from exc
     finally:
         shutil.rmtree(tmp, ignore_errors=True)
 
